@@ -9,7 +9,7 @@ from lark.exceptions import UnexpectedToken
 ###{standalone
 
 class ParseConf(Generic[StateT]):
-    __slots__ = 'parse_table', 'callbacks', 'start', 'start_state', 'end_state', 'states'
+    __slots__ = 'parse_table', 'callbacks', 'start', 'start_state', 'end_state', 'states', 'nonterminals'
 
     parse_table: ParseTableBase[StateT]
     callbacks: ParserCallbacks
@@ -28,6 +28,8 @@ class ParseConf(Generic[StateT]):
 
         self.callbacks = callbacks
         self.start = start
+        # Terminal names aren't always upper-case (e.g. module__NAME): tell symbols apart by the rules (str keys are token callbacks)
+        self.nonterminals = {rule.origin.name for rule in callbacks if not isinstance(rule, str)}
 
 class ParserState(Generic[StateT]):
     __slots__ = 'parse_conf', 'lexer', 'state_stack', 'value_stack'
@@ -76,7 +78,7 @@ class ParserState(Generic[StateT]):
             try:
                 action, arg = states[state][token.type]
             except KeyError:
-                expected = {s for s in states[state].keys() if s.isupper()}
+                expected = {s for s in states[state].keys() if s not in self.parse_conf.nonterminals}
                 raise UnexpectedToken(token, expected, state=self, interactive_parser=None)
 
             assert arg != end_state
